@@ -10,7 +10,7 @@ import core
 from core import Built
 
 PROPERTY = "C08"
-CLASSES = ["c05", "c04", "c06", "c03"]          # format modules providing open_impl/stream_prefix/truth_reader
+CLASSES = ["c05", "c04", "c06", "c03", "c02"]          # format modules providing open_impl/stream_prefix/truth_reader
 RULE = ("for every stream class: generated image (the class's own generator) × stream buffer size in {512, 1536, 4096, 8192, "
         "65536, 1 MiB} (sector multiples) × a random history of 12..60 operations (quick) drawn from seek SET/CUR/END incl. negative "
         "and past-the-end, read n (0, small, large, past the end, -1), readinto, readall, peek, readoffset, tell and read_sectors "
@@ -75,6 +75,11 @@ def generate(seed, tier):
             if cls == "c03":
                 r = m.gen_vhdx.gen_recipe(crng, tier, depth=1, big=(i % 10 == 3))
                 ss = r["layers"][-1]["ss"]
+            elif cls == "c02":
+                r = m.gen_vmdk.gen_extent(crng, tier, huge=False)
+                if r["kind"] == "flat":
+                    r["extra"] = 0
+                ss = 512
             elif cls == "c04":
                 r = m.gen_recipe(crng, tier, big=(i % 10 == 3))
                 ss = 512
@@ -85,7 +90,7 @@ def generate(seed, tier):
             align = crng.choice(aligns)
             case = {"id": f"{cls}-{i}", "cls": cls, "recipe": r, "align": align}
             size, _, ss2 = m.truth_reader(case)
-            case["queries"] = gen_history(crng, size, align, ss2, cls == "c03", crng.randrange(12, 60) if tier == "quick" else crng.randrange(20, 400))
+            case["queries"] = gen_history(crng, size, align, ss2, cls in ("c03", "c02"), crng.randrange(12, 60) if tier == "quick" else crng.randrange(20, 400))
             cases.append(case)
     return cases
 
